@@ -271,6 +271,8 @@ func (e *Engine) ghostType(g *GhostDecl) types.Type {
 		return strT
 	case "If":
 		return types.NewInterfaceType(nil, nil)
+	case "Sl":
+		return types.NewSlice(types.Typ[types.Byte]) // slice-sorted ghosts are read as byte slices unless a builtin says otherwise (slstr)
 	}
 	return nil
 }
